@@ -250,9 +250,11 @@ def values_job(job):
                         fn = lambda: ac.clear_quick_timer(tt)  # noqa: E731
                     else:
                         fn = lambda: ac.set_quick_timer(tt, datetime.time(hour=new[0], minute=new[1]))  # noqa: E731
+                    # (the console stores what it is told: take the other timer as reported BEFORE the call)
+                    before = dict(w.console.state["timer"][1][other])
                     call_expect(w, gen, fn, f"at{gen} ac1 reported on={on} off={off}: {'clear' if new is None else 'set'} {which}",
                                 f"at{gen}:timer-other-untouched", bad, True,
-                                lambda r: cc.match_timer_control(gen, r, 1, which, cc.timer_state(new), rep[other]), kind="timer-control")
+                                lambda r: cc.match_timer_control(gen, r, 1, which, cc.timer_state(new), before), kind="timer-control")
         # a timer command that never reaches the console (queued during an outage that outlasts its lifetime): what the
         # next command says about the OTHER timer is still what the console last reported, not what was asked for
         for tt in A.AcTimerType:
@@ -277,10 +279,11 @@ def values_job(job):
             if any(r[2] == "cmd-timer" for r in w.console.requests[n0:]):
                 bad.append((f"at{gen}:timer-command-after-expiry", f"at{gen}: a timer command queued 31 s before the link came back was transmitted"))
                 continue
+            before = dict(w.console.state["timer"][1][other])
             call_expect(w, gen, lambda: ac.set_quick_timer(tt, datetime.time(hour=6, minute=45)),
                         f"at{gen} ac1: set {other} timer during an outage (lost after 30 s), then set {which}",
                         f"at{gen}:timer-other-untouched", bad, True,
-                        lambda r: cc.match_timer_control(gen, r, 1, which, cc.timer_state((6, 45)), rep[other]), kind="timer-control")
+                        lambda r: cc.match_timer_control(gen, r, 1, which, cc.timer_state((6, 45)), before), kind="timer-control")
     k = len(JUDGED)
     JUDGED.clear()
     return n, bad, k
